@@ -76,7 +76,7 @@ def applicable(world, c):
     if k == "step":
         vf, tf = call_flags(world, c[1])
         return any(vf) and any(tf)
-    if k == "solve":
+    if k in ("solve", "run"):
         return any(world.vary_flags()) and any(world.target_flags())
     if k == "disable":
         vf, tf = world.vary_flags(), world.target_flags()
@@ -102,6 +102,8 @@ def apply_call(world, c):
         return call(lambda: opt.step(**dict(c[1])))
     if k == "solve":
         return call(lambda: opt.solve(**dict(c[1])))
+    if k == "run":
+        return call(lambda: getattr(opt, "run_" + c[1])(n_steps=c[2]))
     if k == "reload":
         n = len(world.raw_log()["penalty"])
         return call(lambda: opt.reload(iteration=c[1] % n))
@@ -494,7 +496,7 @@ def hist_from_json(j):
 class C10:
     prop = "C10"
     shrink_parts = ("calls",)
-    KINDS = ["step", "step", "step", "solve", "enable", "disable", "disable", "reload", "tag", "set_knob"]
+    KINDS = ["step", "step", "step", "solve", "enable", "disable", "disable", "reload", "tag", "set_knob", "run"]
     case_from_json = staticmethod(hist_from_json)
 
     @staticmethod
@@ -610,10 +612,26 @@ class C10:
                     count("call_raised:" + type(exc).__name__)
                 check_call_error(prop, where, c, exc)
                 # ---- limits on every new row and in the containers
-                if c[0] in ("step", "solve") and exc is not None and not (c[0] == "solve" and spec["opts"]["restore_if_fail"]):
+                if c[0] in ("step", "solve", "run") and exc is not None and not (c[0] == "solve" and spec["opts"]["restore_if_fail"]):
                     dirty = True         # the knobs may be left at a finite-difference probe point until they are rewritten
-                elif c[0] in ("step", "solve", "reload") and exc is None:
+                elif c[0] in ("step", "solve", "reload", "run") and exc is None:
                     dirty = False
+                if c[0] == "run":
+                    # the scipy-based runs work on the same merit function: a knob that is disabled keeps its value in every
+                    # row they log and in the containers (max_step is a notion of the Jacobian steps only)
+                    bref = None
+                    log = w.raw_log()
+                    for j, act in enumerate(vfb):
+                        if act:
+                            continue
+                        for r in range(n0, len(log["knobs"])):
+                            if log["knobs"][r][j] != kb[j]:
+                                raise OViolation(prop + ".disabled_knob_moved", "%s: knob %d is disabled but log row %d has %r (before the call %r)"
+                                                 % (where, j, r, log["knobs"][r][j], kb[j]), knob=j)
+                        if exc is None and w.knob_values()[j] != kb[j]:
+                            raise OViolation(prop + ".disabled_knob_moved", "%s: knob %d is disabled but changed from %r to %r"
+                                             % (where, j, kb[j], w.knob_values()[j]), knob=j)
+                        count("disabled_knob_checks")
                 if c[0] != "set_knob":
                     check_limits(w, prop, where, n0, containers=(exc is None and not dirty))
                 if c[0] in ("step", "solve"):
